@@ -34,6 +34,7 @@ type secScenario struct {
 	RefNs   []string   `json:"refNs"` // per filter: namespace written in the reference ("" = none)
 	Events  []secEvent `json:"events"`
 	CrossNs bool       `json:"crossNs"`
+	SameClient bool    `json:"sameClient"` // every filter uses the same OAuth client id (one client registered for several chains)
 }
 
 const ownNs, otherNs, holdFinalizer = "own", "other", "verif.example/hold"
@@ -46,6 +47,10 @@ func runSecretScenario(rec *recorder, sc *secScenario) error {
 		_ = json.Unmarshal([]byte(staticOIDC), &o)
 		delete(o, "client_secret")
 		o["client_id"] = fmt.Sprintf("client-%d", i+1)
+		if sc.SameClient {
+			o["client_id"] = "shared-client"
+			o["callback_uri"] = fmt.Sprintf("https://app.test/cb%d", i+1)
+		}
 		if r == "lit" {
 			o["client_secret"] = "literal-secret"
 		} else {
